@@ -203,9 +203,9 @@ func judgeParse(c *core.Ctx, g *grammar.Grammar, stream string, idx int, inputs 
 		if len(kinds) >= 3 {
 			c.Nontrivial(string(in))
 		}
-		if want && len(kinds) >= 8 && i%41 == 0 {
+		if want && len(kinds) >= 8 && c.WantSample() {
 			c.Sample(map[string]any{"input": short(string(in), 300), "reference": "accept", "crd": "accept", "tokens": len(kinds)})
-		} else if !want && len(kinds) >= 4 && i%997 == 0 {
+		} else if !want && len(kinds) >= 4 && c.WantSample() {
 			c.Sample(map[string]any{"input": short(string(in), 300), "reference": "reject", "crd": "reject", "tokens": len(kinds)})
 		}
 		if want && tree && utf8.Valid(in) && (!viaCLI || o.Items != nil) {
